@@ -10,7 +10,7 @@ fn main() {
         if p.extension().map(|x| x == "rs").unwrap_or(false) {
             println!("cargo:rerun-if-changed={}", p.display());
             let module = p.file_stem().unwrap().to_str().unwrap().to_string();
-            if module == "lib" || module == "main" || module == "util" {
+            if module == "lib" || module == "main" || module == "util" || module == "alloc_track" {
                 continue;
             }
             let text = fs::read_to_string(&p).unwrap();
